@@ -324,7 +324,7 @@ def run(pid, tier):
                     recs.append(case_asn_comparison(f"a{k}", N, u, v, r1, r2, rng.randint(0, N), at))
                     k += 1
     # RAIRE's own front end (its own test object: ALPHA with the comparison-optimal / shrink-truncate estimator)
-    for N in ((12, 40) if tier == "quick" else (12, 40, 90, 200)):
+    for N in ((12, 40) if tier == "quick" else (12, 40, 64)):
         for mean in (F(11, 20), F(3, 5), F(3, 4)):
             for r1, r2 in ((0, 0), (0.25, 0), (0, 0.2), (0.34, 0.2), (0.1, 0.25), (0.5, 0.05)):
                 recs.append(case_raire_estimator(f"re{k}", N, mean, r1, r2, False))
